@@ -194,6 +194,11 @@ func (c *conn) serve() error {
 				// the context was canceled for some reason, perhaps timeout or
 				// due to a flush call. We treat this as a condition where a
 				// response should not be sent.
+			case <-c.ctx.Done():
+				return c.ctx.Err()
+			case <-c.closed:
+				// the writer is gone: nobody will ever take the response.
+				return c.err
 			}
 			delete(tags, resp.Tag)
 		case <-c.ctx.Done():
